@@ -15,7 +15,7 @@ RULE = ("BatchNorm1d/2d histories of 5-30 events over {train(), eval(), forward(
 ASSUMPTIONS = ["BatchNorm training on one value per channel: raising is accepted (PyTorch raises); the counter may or may not have advanced (PyTorch "
                "advances it); what is asserted is that the buffers never become non-finite and otherwise stay as they were",
                "6-sigma bands for the dropout statistics; NumPy global generator seeded per case"]
-SHARD_TIMEOUT = {"quick": 600, "thorough": 1800}
+SHARD_TIMEOUT = {"quick": 900, "thorough": 3600}
 
 
 def gen_cases(tier, seed):
